@@ -6,6 +6,14 @@ import subprocess
 
 VERIF = os.path.dirname(os.path.dirname(os.path.abspath(__file__)))
 LEVELS = {
+    "C17": ("PARTIAL. Proved: the window is the (2L+1)^2 square of distinct pixels centred on the vertex, the integrated band is summed over "
+            "distinct pixels, 'average' normalisation gives mean one, values keep the order given. Model tied to get_intensities by exact "
+            "rational correspondence; linearity in the image, uniform images and the polyline-length divisor are evaluated by the oracle",
+            "4/C17", "Coq theorems on a Gallina model + exact correspondence + oracle (partial)"),
+    "C18": ("theorems over R for every selection: zero where nothing is selected, jointly linear in pressures and tensions, minus p times "
+            "the identity for pure pressure; the dictionary key is injective up to 10 x 10 and collides at 12 x 12 (refutation = known "
+            "finding D10); PrimFloat instance of the model compared with the implementation per grid cell; eigen-decomposition by residual",
+            "4/C18", "Coq theorems on a polymorphic model + correspondence + oracle"),
     "C14": ("token-level model of the dump parser; theorems: a face loop broken over any number of continuation lines is read back whole "
             "(for every list of faces and every wrapping), negative references contribute the edge's second vertex, vertices of no face "
             "and the edges at them are dropped, density rule; tied to the parser by exact correspondence on dumps written by an "
